@@ -127,6 +127,35 @@ func periods(s *hx.Seq) {
 		}
 		s.State(fmt.Sprint(i))
 	}
+	// timestamps that are not in normal form (nanos beyond a second, negative nanos - what a careless client or an
+	// addition without carry produces): whatever the answer, the predicates are predicates - they read their
+	// arguments (which may be stored messages: the booking server hands stored periods to them) and leave them alone
+	if s.Own() {
+		odd := []*timestamppb.Timestamp{{Seconds: 1, Nanos: 1_500_000_000}, {Seconds: 3, Nanos: -500_000_000}, {Seconds: 2, Nanos: 999_999_999}}
+		for _, a := range odd {
+			for _, b := range odd {
+				for _, c := range odd {
+					s.Eval(1)
+					s.Trans(1)
+					P := &sctime.Period{StartTime: proto.Clone(a).(*timestamppb.Timestamp), EndTime: proto.Clone(b).(*timestamppb.Timestamp)}
+					Q := &sctime.Period{StartTime: proto.Clone(c).(*timestamppb.Timestamp)}
+					pc, qc := proto.Clone(P), proto.Clone(Q)
+					name := fmt.Sprintf("[%v,%v) [%v,-) (not normalised)", a, b, c)
+					if pn := guard(func() {
+						pkgtime.PeriodsIntersect(P, Q)
+						pkgtime.PeriodsConnected(Q, P)
+						pkgtime.CompareAscending(P.StartTime, P.EndTime)
+					}); pn != nil {
+						s.Fail("period-panic "+name, fmt.Sprint(pn), nil)
+						continue
+					}
+					if !proto.Equal(P, pc) || !proto.Equal(Q, qc) {
+						s.Fail("period-mutated "+name, fmt.Sprintf("arguments modified: %v %v, were %v %v", P, Q, pc, qc), nil)
+					}
+				}
+			}
+		}
+	}
 	s.Sample("every ordered pair of periods with endpoints in {unbounded} ∪ {0..5}s x {0,1,999999999}ns: 361 x 361 pairs")
 }
 
